@@ -8,6 +8,11 @@ R04.2  every MetadataStore.write result is checked; after a failed data write or
 R04.3  record order: data (State.write_cache) before meta; the meta handed to write_cache_meta
        comes from write_cache's result and is skipped when that is None; dep_hashes filled before
        the meta write; a commit follows every group of writes before the function returns.
+R04.5  one transaction per module in the sharded store: the three record names of a module are
+       `<prefix>.<suffix>` for one prefix whose basename is dot-free; the shard key reads only the
+       path up to the first dot of the basename (so the records share a shard and
+       commit_path(meta) commits all of them); every store method picks its connection through
+       that key.
 R04.4  the validity root is written last or its stale sibling is invalidated first: a meta record
        whose source hash may be new is written only after the old meta_ex was removed (or together
        with / after the new meta_ex); a meta refresh for an unchanged source is exempt.
@@ -29,6 +34,7 @@ STORE = "mypy.metastore.MetadataStore"
 def run(chk: Check) -> None:
     ix = get_index()
     R = Resolver(ix)
+    run_shard(chk, ix)
 
     # ---------------- R04.1
     r1 = chk.rule("R04.1", "file store publishes atomically: write to a fresh temporary, os.replace onto the final name, OSError => return False; no other writer of cache records", floor=3)
@@ -361,3 +367,118 @@ def provenance_ok(f):
     if not skips:
         return "no `if meta_tuple is None: continue` guard: a module whose data write failed would still get a meta record"
     return True
+
+
+def run_shard(chk: Check, ix) -> None:
+    r5 = chk.rule("R04.5", "sharded store: a module's data/meta/meta_ex records share one shard (one transaction), because their names differ only after the first dot of the basename and the shard key reads nothing after that dot", floor=6)
+    # (a) names: prefix + literal suffix beginning with "."; prefix built from id.split(".")
+    gcn = ix.func("mypy.build.get_cache_names")
+    rets = [n for n in ast.walk(gcn.node) if isinstance(n, ast.Return) and isinstance(n.value, ast.Tuple)]
+    last = [r for r in rets if any(isinstance(e, ast.BinOp) for e in r.value.elts)]
+    if len(last) != 1:
+        raise AnalysisError("get_cache_names: the `prefix + suffix` return not found")
+    consts = {}
+    for n in ast.walk(gcn.node):
+        if isinstance(n, ast.Assign) and isinstance(n.targets[0], ast.Name):
+            consts.setdefault(n.targets[0].id, []).append(n.value)
+    prefixes = set()
+    bad = []
+    for e in last[0].value.elts:
+        if isinstance(e, ast.BinOp) and isinstance(e.op, ast.Add):
+            prefixes.add(norm(e.left))
+            sufs = [e.right] if isinstance(e.right, ast.Constant) else consts.get(getattr(e.right, "id", None), [])
+            if not sufs or not all(isinstance(x, ast.Constant) and isinstance(x.value, str) and x.value.startswith(".") for x in sufs):
+                bad.append(norm(e))
+    key = "get_cache_names: meta and data names are one prefix + a literal suffix starting with '.'"
+    if len(prefixes) == 1 and not bad:
+        r5.ok(key, gcn.loc(last[0]))
+    else:
+        r5.violation(key, gcn.loc(last[0]), f"record names are not `<same prefix> + '.<suffix>'` (prefixes {sorted(prefixes)}, non-literal suffixes {bad})")
+    pvar = next(iter(prefixes)) if prefixes else "prefix"
+    defs = consts.get(pvar, [])
+    dotfree = bool(defs) and any('id.split(".")' in norm(d) or "id.split('.')" in norm(d) for d in defs) and all(
+        ('id.split(' in norm(d)) or (isinstance(d, ast.Call) and call_name(d) in ("os_path_join", "join") and all(isinstance(a, ast.Name) and a.id == pvar or isinstance(a, ast.Constant) and isinstance(a.value, str) and "." not in a.value for a in d.args))
+        for d in defs)
+    key = "get_cache_names: the prefix's path components come from id.split('.') / dot-free literals"
+    if dotfree:
+        r5.ok(key, gcn.loc())
+    else:
+        r5.violation(key, gcn.loc(), f"the common prefix may contain a dot in its basename ({[norm(d) for d in defs]}): the stem the shard key hashes would differ between records")
+    gmx = ix.func("mypy.build.get_meta_ex_name")
+    t = norm(gmx.node)
+    key = "get_meta_ex_name replaces only the middle component after the prefix"
+    if "rsplit('.', maxsplit=2)" in t and "parts[1] = 'meta_ex'" in t and "'.'.join(parts)" in t:
+        r5.ok(key, gmx.loc())
+    else:
+        r5.violation(key, gmx.loc(), "the meta_ex name is no longer `<prefix>.meta_ex.<ext>` derived from the meta name")
+
+    # (b) every connection choice goes through _shard_index(name) = hash_path_stem(name) % num_shards
+    sq = ix.cls("mypy.metastore.SqliteMetadataStore")
+    si = sq.methods.get("_shard_index")
+    if si is None:
+        raise AnalysisError("SqliteMetadataStore._shard_index vanished")
+    rv = [norm(n.value) for n in ast.walk(si.node) if isinstance(n, ast.Return) and n.value is not None]
+    key = "SqliteMetadataStore._shard_index = hash_path_stem(name) % num_shards"
+    if set(rv) <= {"0", "hash_path_stem(name) % self.num_shards"} and "hash_path_stem(name) % self.num_shards" in rv:
+        r5.ok(key, si.loc())
+    else:
+        r5.violation(key, si.loc(), f"shard index computed as {rv}")
+    for mn, m in sorted(sq.methods.items()):
+        subs = [n for n in ast.walk(m.node) if isinstance(n, ast.Subscript) and norm(n.value) == "self.dbs" and not isinstance(n.ctx, ast.Store)]
+        for sub in subs:
+            idx = sub.slice
+            k = f"SqliteMetadataStore.{mn}: self.dbs[{norm(idx)}]"
+            src_ok = norm(idx) == "self._shard_index(name)"
+            if isinstance(idx, ast.Name):
+                ds = [n for n in ast.walk(m.node) if isinstance(n, ast.Assign) and norm(n.targets[0]) == idx.id]
+                fors = [n for n in ast.walk(m.node) if isinstance(n, ast.For) and norm(n.target) == idx.id]
+                src_ok = bool(ds) and all(norm(d.value) == "self._shard_index(name)" for d in ds) or bool(fors) and all(norm(f_.iter) in ("self.dirty_shards", "range(self.num_shards)", "range(num_shards)") for f_ in fors)
+            if src_ok:
+                r5.ok(k, m.loc(sub))
+            else:
+                r5.violation(k, m.loc(sub), "a shard connection is chosen by something other than _shard_index(name) / an all-shards loop")
+
+    # (c) hash_path_stem: backwards scan leaves `end` at the first dot of the basename; the hash reads s[0..end] only
+    hp = ix.func("mypy.util.hash_path_stem")
+    loops = [n for n in hp.node.body if isinstance(n, ast.While)]
+    if len(loops) != 2:
+        raise AnalysisError("hash_path_stem: expected a scan loop and a hash loop")
+    scan, hloop = loops
+    par = hp.module.parents()
+
+    def is_ord_cmp(e, ch):
+        return isinstance(e, ast.Compare) and len(e.ops) == 1 and isinstance(e.ops[0], ast.Eq) and norm(e.comparators[0]) == f"ord({ch!r})"
+
+    def only_sep(test):
+        parts = test.values if isinstance(test, ast.BoolOp) and isinstance(test.op, ast.Or) else [test]
+        return all(is_ord_cmp(x, "/") or is_ord_cmp(x, "\\") for x in parts)
+
+    backwards = any(isinstance(n, ast.AugAssign) and isinstance(n.op, ast.Sub) and norm(n.target) == "i" for n in scan.body) and norm(scan.test) == "i >= 0"
+    starts_at_end = any(isinstance(n, ast.Assign) and norm(n) == "i = len(s) - 1" for n in hp.node.body)
+    exits = [n for n in ast.walk(scan) if isinstance(n, (ast.Break, ast.Return))]
+    bad_exits = []
+    for x in exits:
+        chain = []
+        p_ = par.get(x)
+        while p_ is not None and p_ is not scan:
+            if isinstance(p_, ast.If):
+                chain.append(p_.test)
+            p_ = par.get(p_)
+        if not (chain and all(only_sep(t_) for t_ in chain)):
+            bad_exits.append(f"line {x.lineno} under {[norm(t_) for t_ in chain]}")
+    ends = [n for n in ast.walk(scan) if isinstance(n, ast.Assign) and norm(n.targets[0]) == "end"]
+    end_on_dot = bool(ends) and all(norm(n.value) == "i" and isinstance(par.get(n), ast.If) and is_ord_cmp(par.get(n).test, ".") for n in ends)
+    cont = [n for n in ast.walk(scan) if isinstance(n, ast.Continue)]
+    key = "hash_path_stem: the backwards scan stops only at a path separator, so `end` is the first dot of the basename"
+    if backwards and starts_at_end and end_on_dot and not bad_exits and not cont:
+        r5.ok(key, hp.loc(scan))
+    else:
+        r5.violation(key, hp.loc(scan), "the scan over the basename " + (f"leaves the loop on something other than a separator ({'; '.join(bad_exits)})" if bad_exits else "does not have the shape `from the last character backwards, end = i at each dot`") + ": `x.meta.ff`, `x.meta_ex.ff` and `x.data.ff` hash different stems, land in different shards, and commit_path(meta) no longer commits a module's records together")
+    reads = [n for n in ast.walk(hloop) if isinstance(n, ast.Subscript) and norm(n.value) == "s"]
+    init_i = [n for n in hp.node.body if isinstance(n, ast.Assign) and norm(n.targets[0]) == "i" and n.lineno > scan.lineno]
+    down = any(isinstance(n, ast.AugAssign) and isinstance(n.op, ast.Sub) and norm(n.target) == "i" for n in hloop.body)
+    key = "hash_path_stem: the hash loop reads s[end], s[end-1], ..., s[0] only"
+    if reads and all(norm(r.slice) == "i" for r in reads) and init_i and all(norm(n.value) == "end" for n in init_i) and down and norm(hloop.test) == "i >= 0" and not any(isinstance(n, ast.Subscript) and norm(n.value) == "s" for st in hp.node.body if st.lineno > hloop.lineno for n in ast.walk(st)):
+        r5.ok(key, hp.loc(hloop))
+    else:
+        r5.violation(key, hp.loc(hloop), "the hash may read characters after the first dot of the basename")
